@@ -351,6 +351,7 @@ fn main() {
 	}
 
 	let mut tasks: Vec<Task> = vec![];
+	let mut key_cache: BTreeMap<(String, u32), Option<[u8; 32]>> = BTreeMap::new();
 	let mut nsweeps = 0usize;
 	let mut rng = edits::Rng::new(seed.wrapping_mul(0x9E37_79B9).wrapping_add(7));
 	let extra_wrong = v["extra_wrong"].as_u64().unwrap_or(0) as usize;
@@ -475,7 +476,9 @@ fn main() {
 				"mode": dsp.as_ref().map(|s| s.mode as i64).unwrap_or(-1)}).to_string());
 			// the binary and JSON forms through the packer with the first key of the opener
 			let dk: Option<[u8; 32]> = idx.first().and_then(|i| {
-				owner::get_slatepack_secret_key(ctx.world.inst(wn), ctx.world.mask(wn).as_ref(), *i).ok().map(|k| k.to_bytes())
+				*key_cache.entry((wn.clone(), *i)).or_insert_with(|| {
+					owner::get_slatepack_secret_key(ctx.world.inst(wn), ctx.world.mask(wn).as_ref(), *i).ok().map(|k| k.to_bytes())
+				})
 			});
 			if names.len() <= 1 {
 				for (api, data) in [("packer_bin", sp_bin.clone()), ("packer_json", sp_json.clone().map(|j| j.into_bytes()))].iter() {
